@@ -9,6 +9,7 @@
 #include <tao/pegtl/contrib/control_action.hpp>
 #include <tao/pegtl/contrib/raw_string.hpp>
 #include <tao/pegtl/contrib/remove_first_state.hpp>
+#include <tao/pegtl/contrib/remove_last_states.hpp>
 #include <tao/pegtl/contrib/shuffle_states.hpp>
 
 #include <tao/pegtl/must_if.hpp>
@@ -95,7 +96,7 @@ namespace sim::io
    struct mi_mustc : pegtl::seq< pegtl::one< '<' >, pegtl::must< mi_plain_c >, pegtl::one< '>' > > {};
    struct mi_look : pegtl::seq< pegtl::one< '?' >, pegtl::at< mi_msg_b >, mi_msg_b > {};
    struct g_mustif : pegtl::until< pegtl::eof, pegtl::sor< mi_group, mi_hash, mi_optb, mi_mustb, mi_mustc, mi_look, pegtl::one< ' ' > > > {};
-   // 8: contrib control adaptors (remove_first_state, rotate_states_right / _left, reverse_states) layered on a
+   // 8: contrib control adaptors (remove_first_state, remove_last_states, rotate_states_right / _left, reverse_states) layered on a
    //    recording control that knows in which order it must receive the states, and actions derived from
    //    control_action, whose own start / success / failure / unwind hooks must form the same balanced protocol
    struct tag_a {};
@@ -188,6 +189,7 @@ namespace sim::io
    template< typename Rule > struct adapt_rl : pegtl::rotate_states_left< exp_ctl< Rule, 231 > > {};
    template< typename Rule > struct adapt_rev : pegtl::reverse_states< exp_ctl< Rule, 321 > > {};
    template< typename Rule > struct adapt_rr2 : pegtl::rotate_states_right< exp_ctl< Rule, 231 >, 2 > {};
+   template< typename Rule > struct adapt_rls : pegtl::remove_last_states< exp_ctl< Rule, 12 >, 1 > {};
 
    struct hk_word : pegtl::plus< pegtl::alpha > {};    // void apply
    struct hk_num : pegtl::plus< pegtl::digit > {};     // bool apply
@@ -201,9 +203,10 @@ namespace sim::io
    struct hk_rl : pegtl::seq< pegtl::one< '{' >, pegtl::control< adapt_rl, hk_body >, pegtl::one< '}' > > {};
    struct hk_rev : pegtl::seq< pegtl::one< '<' >, pegtl::control< adapt_rev, pegtl::try_catch_return_false< hk_ca< 0 > > >, pegtl::one< '>' > > {};
    struct hk_rr2 : pegtl::seq< pegtl::one< '|' >, pegtl::control< adapt_rr2, hk_body >, pegtl::one< '|' > > {};
+   struct hk_rls : pegtl::seq< pegtl::one< '~' >, pegtl::control< adapt_rls, hk_ca< 0 > >, pegtl::one< '~' > > {};
    struct hk_plain : pegtl::seq< pegtl::one< '/' >, hk_ca< 0 >, pegtl::one< '/' > > {};
    struct hk_look : pegtl::seq< pegtl::one< '@' >, pegtl::at< hk_ca< 1 > >, pegtl::opt< pegtl::one< '@' >, pegtl::disable< hk_ca< 0 > > >, hk_ca< 1 >, pegtl::one< '@' > > {};
-   struct hk_safe : pegtl::try_catch_any_return_false< pegtl::sor< hk_rfs, hk_rr, hk_rl, hk_rev, hk_rr2, hk_plain, hk_look > > {};
+   struct hk_safe : pegtl::try_catch_any_return_false< pegtl::sor< hk_rfs, hk_rr, hk_rl, hk_rev, hk_rr2, hk_rls, hk_plain, hk_look > > {};
    struct g_hooks : pegtl::until< pegtl::eof, pegtl::sor< hk_safe, pegtl::seq< pegtl::one< '$' >, pegtl::sor< hk_rfs, hk_rr, hk_plain > >, pegtl::any > > {};
 
    template< int K >
